@@ -1395,7 +1395,14 @@ def rule_r8(chk, prog):
              'computed result - known or unknown - is stored under every key '
              'the function probes')
     from ..cfg import enumerate_paths
-    from ..astutil import module_sentinels
+    from ..astutil import module_sentinels, resolve_near
+
+    def key_of(e, site):
+        # "key = node.id; ... cache[key]": the key is node.id
+        st = site
+        while st is not None and not isinstance(st, ast.stmt):
+            st = getattr(st, '_parent', None)
+        return unparse(resolve_near(f, e, st if st is not None else site))
     m = prog.mod('smtlib')
     f = m.func('get_sort')
     where = 'smtlib.get_sort'
@@ -1431,13 +1438,13 @@ def rule_r8(chk, prog):
                 x.ops[0], (ast.In, ast.NotIn)) and isinstance(
                     x.comparators[0], ast.Name) and \
                 x.comparators[0].id == cache:
-            probed.add(unparse(x.left))
+            probed.add(key_of(x.left, x))
             nprobe += 1
         if isinstance(x, ast.Call) and isinstance(
                 x.func, ast.Attribute) and isinstance(
                     x.func.value, ast.Name) and x.func.value.id == cache:
             if x.func.attr == 'get' and x.args:
-                probed.add(unparse(x.args[0]))
+                probed.add(key_of(x.args[0], x))
                 nprobe += 1
                 dflt = x.args[1] if len(x.args) > 1 else kw(x, 'default')
                 ok = isinstance(dflt, ast.Name) and dflt.id in sents
@@ -1462,7 +1469,7 @@ def rule_r8(chk, prog):
                 x.ctx, ast.Load) and isinstance(
                     x.value, ast.Name) and x.value.id == cache:
             key = unparse(x.slice)
-            probed.add(key)
+            probed.add(key_of(x.slice, x))
             facts = facts_at(f, x)
             ok = (f'{key} in {cache}', True) in facts
             if not ok:
@@ -1504,7 +1511,7 @@ def rule_r8(chk, prog):
                             t.value, ast.Name) and t.value.id == cache and \
                             isinstance(a.value, ast.Name) and \
                             a.value.id == resvar:
-                        stored.add(unparse(t.slice))
+                        stored.add(key_of(t.slice, a))
         missing = sorted(probed - stored)
         from ..pathutil import describe_path
         chk.check('C16.R8', where, f'{describe_path(p)}: result stored '
